@@ -38,7 +38,8 @@ def cvar(C, name):
     return C.var(name + "r") + A.I() * C.var(name + "i")
 
 
-def build():
+def build(empty=()):
+    """`empty`: (ik, spin, state) triples whose filling is EXACTLY zero (an empty state below an occupied one: non-aufbau fillings)."""
     C = new_ctx()
     ld = make_loader(native_extra=("eminus",))
     ops = ld.load("eminus.operators")
@@ -92,7 +93,7 @@ def build():
     for ik in range(NK):
         for s in range(NSPIN):
             for j in range(NST):
-                f[ik, s, j] = C.var(f"f{ik}{s}{j}", positive=True)
+                f[ik, s, j] = A.ZERO if (ik, s, j) in empty else C.var(f"f{ik}{s}{j}", positive=True)
     occ.f = f
     occ.F = [[np.diag(f[ik, s]) for s in range(NSPIN)] for ik in range(NK)]
     at.occ = occ
@@ -148,7 +149,18 @@ class Density:
         return None if v else what
 
     def prove(self):
-        C, ld, at, Y = build()
+        # generic positive fillings, and non-aufbau patterns with an exactly empty state below an occupied one
+        last = None
+        for empty in ((), ((0, 0, 0), (1, 1, 0)), ((0, 1, 1),)):
+            last = self.prove_instance(empty)
+            if last.verdict != DISCHARGED:
+                if empty:
+                    last.detail = f"{last.detail} [fillings exactly zero at (k, spin, state) = {list(empty)}]"
+                return last
+        return last
+
+    def prove_instance(self, empty):
+        C, ld, at, Y = build(empty)
         dft = ld.load("eminus.dft")
         checked = 0
         bad = None
@@ -234,6 +246,9 @@ class Density:
         at.set_k([[0.0, 0.0, 0.0], [0.2, 0.1, 0.05], [0.1, -0.3, 0.2]], [0.2, 0.3, 0.5])
         at.build()
         at.occ._f = rng.uniform(0.1, 1.0, at.occ.f.shape)
+        if at.occ.f.shape[-1] > 1:
+            at.occ._f[0, 0, 0] = 0.0  # an empty state below an occupied one (non-aufbau)
+            at.occ._f[-1, 1, 0] = 0.0
         W = [rng.standard_normal((2, len(at.Gk2c[ik]), at.occ.Nstate)) + 1j * rng.standard_normal((2, len(at.Gk2c[ik]), at.occ.Nstate)) for ik in range(at.kpts.Nk)]
         Y = orth(at, W)
         err = {}
